@@ -23,7 +23,8 @@ pub enum CQ {
 pub enum Case {
     Curve2 { spec: Curve2Spec, queries: Vec<CQ> },
     Curve3 { spec: Curve3Spec, queries: Vec<CQ> },
-    Mesh { spec: MeshSpec, solid: bool, queries: Vec<Query>, cap: f64, ang: f64, tf: Iso3D },
+    /// exp2: mesh and queries rescaled together by 2^exp2 (exact)
+    Mesh { spec: MeshSpec, solid: bool, queries: Vec<Query>, cap: f64, ang: f64, tf: Iso3D, #[serde(default)] exp2: i32 },
 }
 
 fn cq() -> BoxedStrategy<CQ> {
@@ -39,7 +40,7 @@ impl Property for C02 {
     type Case = Case;
     const ID: &'static str = "C02";
     fn rule() -> &'static str {
-        "cases: 2D/3D polylines (2-200 vertices quick, 400 thorough; long-thin, spirals, dense-then-sparse, lattice paths with self-touching) or meshes (grids with random diagonals, L-shapes, tubes, fans, boxes, octahedra, icospheres, tori, prisms; shuffled numbering; any pose; 2-600 faces) with 10-40 query points constructed on an element, offset from it (1e-6..3 scale), near vertices/creases, or far away; plus a distance cap and an angle for the filtered projections. Oracle: exhaustive scan over all edges/faces in the harness (own point-segment and Ericson point-triangle routines). Non-trivial: >= 8 elements and the optimum is not attained on element 0. Distinct = distinct canonical JSON."
+        "cases: 2D/3D polylines (2-200 vertices quick, 400 thorough; long-thin, spirals, dense-then-sparse, lattice paths with self-touching) or meshes (grids with random diagonals, L-shapes, tubes, fans, boxes, octahedra, icospheres, tori, prisms; shuffled numbering; any pose; 2-600 faces; a third rescaled as a whole, queries included, by 2^-30..2^20 as long as every doubled face area stays above 1e-15) with 10-40 query points constructed on an element, offset from it (1e-6..3 scale), near vertices/creases, or far away; plus a distance cap and an angle for the filtered projections. Oracle: exhaustive scan over all edges/faces in the harness (own point-segment and Ericson point-triangle routines). Non-trivial: >= 8 elements and the optimum is not attained on element 0. Distinct = distinct canonical JSON."
     }
     fn cases(t: Tier) -> u32 {
         t.pick(200_000, 1_500_000)
@@ -53,8 +54,8 @@ impl Property for C02 {
         prop_oneof![
             2 => (curve2_spec(2, nmax, -2.0, 2.0, false), prop::collection::vec(cq(), 10..40)).prop_map(|(spec, queries)| Case::Curve2 { spec, queries }),
             1 => (curve3_spec(2, nmax, -2.0, 2.0, false), prop::collection::vec(cq(), 10..40)).prop_map(|(spec, queries)| Case::Curve3 { spec, queries }),
-            3 => (clean_mesh(prop_oneof![3 => open_kind(gmax), 2 => closed_kind(2)].boxed(), 10.0), prop::bool::weighted(0.2), prop::collection::vec(query(), 10..40), logu(-2.0, 0.5), unif(0.05, PI / 2.0), iso3(3.0))
-                .prop_map(|(spec, solid, queries, cap, ang, tf)| Case::Mesh { spec, solid, queries, cap, ang, tf }),
+            3 => (clean_mesh(prop_oneof![3 => open_kind(gmax), 2 => closed_kind(2)].boxed(), 10.0), prop::bool::weighted(0.2), prop::collection::vec(query(), 10..40), logu(-2.0, 0.5), unif(0.05, PI / 2.0), iso3(3.0), prop_oneof![2 => Just(0i32), 1 => -30i32..=20])
+                .prop_map(|(spec, solid, queries, cap, ang, tf, exp2)| Case::Mesh { spec, solid, queries, cap, ang, tf, exp2 }),
         ]
         .boxed()
     }
@@ -62,7 +63,7 @@ impl Property for C02 {
         match case {
             Case::Curve2 { spec, queries } => curve2(spec, queries),
             Case::Curve3 { spec, queries } => curve3(spec, queries),
-            Case::Mesh { spec, solid, queries, cap, ang, tf } => mesh(spec, *solid, queries, *cap, *ang, tf),
+            Case::Mesh { spec, solid, queries, cap, ang, tf, exp2 } => mesh(spec, *solid, queries, *cap, *ang, tf, *exp2),
         }
     }
 }
@@ -211,10 +212,18 @@ fn curve3(spec: &Curve3Spec, queries: &[CQ]) -> Verdict {
     cx.pass()
 }
 
-fn mesh(spec: &MeshSpec, solid: bool, queries: &[Query], cap_rel: f64, ang: f64, tf: &Iso3D) -> Verdict {
+fn mesh(spec: &MeshSpec, solid: bool, queries: &[Query], cap_rel: f64, ang: f64, tf: &Iso3D, exp2: i32) -> Verdict {
     let mut cx = Ctx::new();
     cx.label("mesh");
-    let Some(bm) = spec.build() else { return Verdict::Discard("empty mesh") };
+    let Some(mut bm) = spec.build() else { return Verdict::Discard("empty mesh") };
+    // queries are constructed on the mesh as generated; mesh and queries are then rescaled together (exactly)
+    let unit = 2f64.powi(exp2);
+    let resolved: Vec<engeom::Point3> = queries.iter().map(|q| engeom::Point3::from(q.resolve(&bm).coords * unit)).collect();
+    for p in bm.v.iter_mut() {
+        *p = engeom::Point3::from(p.coords * unit);
+    }
+    cx.label_if(exp2 < -13, "unit_below_1e-4");
+    cx.label_if(exp2 > 10, "unit_above_1e3");
     let soup = bm.soup();
     // degenerate faces excluded (the library unwraps the face normal)
     for i in 0..soup.f.len() {
@@ -223,6 +232,11 @@ fn mesh(spec: &MeshSpec, solid: bool, queries: &[Query], cap_rel: f64, ang: f64,
         let lmax = e0.max(e1).max(e2);
         if crate::oracle::tri_area(&a, &b, &c) < 1e-6 * lmax * lmax {
             return Verdict::Discard("degenerate face");
+        }
+        // parry's Triangle::normal() declines faces whose doubled area is at most f64::EPSILON (absolute) and the library
+        // unwraps it, here and in a dozen other places: such faces are "degenerate" by the dependency's own definition
+        if 2.0 * crate::oracle::tri_area(&a, &b, &c) < 1e-15 {
+            return Verdict::Discard("face below the dependency's absolute degeneracy threshold");
         }
     }
     let m = bm.mesh(solid);
@@ -233,11 +247,11 @@ fn mesh(spec: &MeshSpec, solid: bool, queries: &[Query], cap_rel: f64, ang: f64,
     cx.label_if(solid, "solid");
     cx.label(if bm.topo.closed { "closed_mesh" } else { "open_mesh" });
     let mut nt = false;
-    let iso = tf.to_iso();
+    let mut iso = tf.to_iso();
+    iso.translation.vector *= unit;
     let mut pts = vec![];
     let mut expect_in_tol: Vec<Option<bool>> = vec![];
-    for qs in queries {
-        let q = qs.resolve(&bm);
+    for q in resolved {
         let (dstar, _, f0) = soup.closest(&q);
         let sp = match guarded(|| m.surf_closest_to(&q)) {
             Ok(s) => s,
